@@ -44,7 +44,7 @@ BASE_MIX = {
     'remove_node': 3, 'remove_component': 3, 'remove_network_service': 3, 'remove_facility': 1, 'remove_switch': 1,
     'remove_storage': 1,
     'set_property': 6, 'unset_property': 2, 'rename': 2, 'update_labels': 1, 'update_capacities': 1,
-    'set_properties': 1, 'prop_setter': 1,
+    'set_properties': 1, 'prop_setter': 1, 'edit_tracked': 1, 'respell_user_data': 1,
     'validate': 3, 'roundtrip': 2, 'get_sliver': 3, 'checkpoint': 1, 'diff_slivers': 2,
     'collect_authz': 2, 'collect_log': 1, 'views_readonly': 1, 'prune': 1, 'label_service_port': 1,
     # substrate flavour
@@ -58,7 +58,7 @@ SUBSTRATE_MIX = {
     'remove_node': 3, 'remove_component': 3, 'remove_facility': 1, 'remove_switch': 1,
     'set_property': 5, 'unset_property': 2, 'rename': 1, 'get_sliver': 2, 'roundtrip': 2, 'views_readonly': 1,
     'validate': 1, 'add_child_interface': 4, 'remove_child_interface': 2, 'set_properties': 1,
-    'checkpoint': 1, 'diff_slivers': 1,
+    'checkpoint': 1, 'diff_slivers': 1, 'edit_tracked': 1, 'respell_user_data': 1,
 }
 PROP_BOOST = {
     'C07': {'add_child_interface': 8, 'remove_node': 5, 'remove_component': 5, 'failing': 6, 'connect_interface': 9},
@@ -72,7 +72,7 @@ PROP_BOOST = {
     'C10': {'validate': 14, 'add_network_service': 14, 'connect_interface': 8, 'set_property': 8},
     'C11': {'collect_authz': 10, 'collect_log': 5, 'add_port_mirror_service': 10, 'add_facility': 5,
             'add_network_service': 12, 'roundtrip': 3, 'label_service_port': 6, 'validate': 4, 'add_component': 14},
-    'C17': {'checkpoint': 3, 'diff_slivers': 22, 'set_property': 10, 'add_component': 12, 'remove_component': 6,
+    'C17': {'checkpoint': 3, 'diff_slivers': 22, 'edit_tracked': 14, 'respell_user_data': 6, 'set_property': 10, 'add_component': 12, 'remove_component': 6,
             'add_child_interface': 6, 'node_add_network_service': 8, 'node_remove_network_service': 4,
             'svc_add_interface': 6, 'remove_child_interface': 3},
     'C01': {'roundtrip': 12},
@@ -149,6 +149,11 @@ class W2World(World):
             self.bystander = other
         else:
             self.bystander = None
+        import copy
+        from fim.slivers.network_node import NodeSliver
+        from fim.slivers.network_service import NetworkServiceSliver
+        # process-global tables a run must not inherit from the previous run of this worker
+        self._tables = (copy.deepcopy(NodeSliver.NodeConstraints), copy.deepcopy(NetworkServiceSliver.ServiceConstraints))
         self.topo = SubstrateTopology(importer=self.imp) if cfg['flavour'] == 'substrate' else \
             ExperimentTopology(importer=self.imp)
         self.by_pre = other_graphs_state(self.imp, self.gid())
@@ -163,6 +168,10 @@ class W2World(World):
 
     def close(self):
         self.seam.uninstall()
+        from fim.slivers.network_node import NodeSliver
+        from fim.slivers.network_service import NetworkServiceSliver
+        if getattr(self, '_tables', None):
+            NodeSliver.NodeConstraints, NetworkServiceSliver.ServiceConstraints = self._tables
         from fim.graph.networkx_property_graph import NetworkXGraphStorage
         from fim.graph.networkx_property_graph_disjoint import NetworkXGraphStorageDisjoint
         NetworkXGraphStorage.storage_instance = None
